@@ -112,6 +112,7 @@ type Exec struct {
 	beMemo    map[string]Term
 	divMemo   map[string][2]Term
 	constMemo map[string]Term
+	addrHex   map[string][]Term
 	constAtoms map[string]int64
 
 	// statistics
@@ -227,6 +228,7 @@ func (ex *Exec) runOnce(fn *ssa.Function) {
 	ex.beMemo = map[string]Term{}
 	ex.divMemo = map[string][2]Term{}
 	ex.constMemo = map[string]Term{}
+	ex.addrHex = map[string][]Term{}
 	ex.objSeq = 0
 	ex.auxSeq = 0
 	ex.depth = 0
